@@ -5,7 +5,7 @@ from lib import Check, s_str
 from translate import t1_regex
 
 PID = 'C07'
-CONE = ['Regex.v', 'RegexFacts.v', 'RegexCost.v', 'RunFacts.v', 'DetCost.v', 'RegexSem.v', 'gen/RegexGen.v']
+CONE = ['Regex.v', 'RegexFacts.v', 'RegexCost.v', 'RunFacts.v', 'DetCost.v', 'RegexSem.v', 'AttrPat.v', 'AttrCost.v', 'gen/RegexGen.v']
 BASE_CHARS = ['\\', '"', "'", ' ', '\r', '\n', '\f', '\t', '/', '*', 'a', 'f', '0', '9', '-', ',', '(', ')', 'n', '|', ']', '=', ':', 'z', '.', '+',
               '\xe9', '\u0434', '\u65e5', '\u0663', '_', '\x80', '\U0001F600']      # non-ASCII letters / digits / symbols, underscore
 PREFIXES = ['', '[a="', "[a='", ':lang(', ':lang("', ':nth-child(', ':nth-child(2n', '/*', '"', "'", '[a', '[a=', ':x(', '\\', ':-soup-contains(',
@@ -312,8 +312,8 @@ def run(tier, seed):
              '(3) compile() on 19 families of truncated constructs repeated 12/24/48 times. Decisions use growth rates, seconds only '
              'with generous thresholds. class = (stage, pattern, grew?).',
         assumptions=['CPython\'s re cost is proportional to the size of the backtracking search of the reference semantics (measured, not proved)',
-                     'all 50 regenerated patterns carry the DetCost certificate (polynomial number of ends for every subject); the attribute patterns '
-                     'built at run time (a literal between fixed frames) are validated and searched, not certified',
+                     'all 50 regenerated patterns carry the DetCost certificate (polynomial number of ends for every subject), and so do the attribute '
+                     'patterns built at run time, for every value (AttrCost, on the template model that is validated AST-for-AST against the parser)',
                      'the bound counts complete ends of each (sub)expression; the work inside a failing branch is covered by the same bound applied to '
                      'that sub-expression, not by a separate theorem about the total number of steps'])
 
